@@ -136,10 +136,6 @@ func udpExchange(pkt []byte, expectSilence bool) []byte {
 			break
 		}
 	}
-	var id uint16
-	if len(pkt) >= 2 {
-		id = binary.BigEndian.Uint16(pkt)
-	}
 	udpConn.Write(pkt)
 	var sid uint16
 	if expectSilence || len(pkt) < 12 {
@@ -147,6 +143,9 @@ func udpExchange(pkt []byte, expectSilence bool) []byte {
 		s, sid = sentinel()
 		udpConn.Write(s)
 	}
+	// The socket was drained and only this packet (and the sentinel) is
+	// outstanding, so ANY datagram that is not the sentinel's reply answers
+	// it — whatever ID it carries.
 	var got []byte
 	deadline := time.Now().Add(1500 * time.Millisecond)
 	for {
@@ -155,16 +154,15 @@ func udpExchange(pkt []byte, expectSilence bool) []byte {
 		if err != nil {
 			return got
 		}
-		if n >= 2 {
-			rid := binary.BigEndian.Uint16(buf)
-			if rid == id && (sid == 0 || rid != sid) {
-				got = append([]byte(nil), buf[:n]...)
-				if sid == 0 {
-					return got
-				}
-			} else if sid != 0 && rid == sid {
-				deadline = time.Now().Add(grace)
-			}
+		if sid != 0 && n >= 2 && binary.BigEndian.Uint16(buf) == sid {
+			deadline = time.Now().Add(grace)
+			continue
+		}
+		if got == nil {
+			got = append([]byte(nil), buf[:n]...)
+		}
+		if sid == 0 {
+			return got
 		}
 	}
 }
@@ -193,10 +191,6 @@ func tcpExchange(pkt []byte, expectSilence bool) []byte {
 		}
 		tcpConn = c
 	}
-	var id uint16
-	if len(pkt) >= 2 {
-		id = binary.BigEndian.Uint16(pkt)
-	}
 	out := frame(pkt)
 	var sid uint16
 	if expectSilence || len(pkt) < 12 {
@@ -210,6 +204,8 @@ func tcpExchange(pkt []byte, expectSilence bool) []byte {
 		tcpConn = nil
 		return nil
 	}
+	// One connection, one outstanding frame (plus the sentinel): any frame
+	// that is not the sentinel's reply answers it.
 	var got []byte
 	deadline := time.Now().Add(1500 * time.Millisecond)
 	for {
@@ -222,16 +218,15 @@ func tcpExchange(pkt []byte, expectSilence bool) []byte {
 			}
 			return got
 		}
-		if len(b) >= 2 {
-			rid := binary.BigEndian.Uint16(b)
-			if rid == id && rid != sid {
-				got = b
-				if sid == 0 {
-					return got
-				}
-			} else if sid != 0 && rid == sid {
-				deadline = time.Now().Add(grace)
-			}
+		if sid != 0 && len(b) >= 2 && binary.BigEndian.Uint16(b) == sid {
+			deadline = time.Now().Add(grace)
+			continue
+		}
+		if got == nil {
+			got = b
+		}
+		if sid == 0 {
+			return got
 		}
 	}
 }
